@@ -79,6 +79,9 @@ static EXECS_NONTRIVIAL: AtomicU64 = AtomicU64::new(0);
 struct Config {
     /// per submission: true = no gas limit configured (gas estimation round-trip)
     estimate: Vec<bool>,
+    /// per submission: true = blob submission (`broadcast_blobs`, BlobTx envelope), false = `broadcast_message`
+    #[serde(default)]
+    blob: Vec<bool>,
     /// extended answer menus (legacy sequence code, gRPC-level failures)
     wide_menu: bool,
     bound: usize,
@@ -121,6 +124,15 @@ struct DecodedTx {
 }
 
 fn decode_tx(tx_bytes: &[u8], vk: &VerifyingKey) -> Result<DecodedTx, String> {
+    // a blob submission wraps the signed transaction into a BlobTx envelope
+    let inner;
+    let tx_bytes = match celestia_types::blob::RawBlobTx::decode(tx_bytes) {
+        Ok(b) if b.type_id == "BLOB" => {
+            inner = b.tx;
+            inner.as_slice()
+        }
+        _ => tx_bytes,
+    };
     let raw = TxRaw::decode(tx_bytes).map_err(|e| format!("TxRaw: {e}"))?;
     let body = TxBody::decode(raw.body_bytes.as_slice()).map_err(|e| format!("TxBody: {e}"))?;
     let auth = AuthInfo::decode(raw.auth_info_bytes.as_slice()).map_err(|e| format!("AuthInfo: {e}"))?;
@@ -302,6 +314,7 @@ impl Model {
 }
 
 #[derive(Debug)]
+#[allow(dead_code)]
 enum SubResult {
     Ok { height: u64 },
     Err(String),
@@ -320,7 +333,7 @@ fn err_kind(e: &Error) -> String {
     }
 }
 
-fn spawn_submission(client: &GrpcClient, node: &FakeNode, sub: usize, estimate: bool, from: String) -> tokio::task::JoinHandle<()> {
+fn spawn_submission(client: &GrpcClient, node: &FakeNode, sub: usize, estimate: bool, blob: bool, from: String) -> tokio::task::JoinHandle<()> {
     let client = client.clone();
     let node = node.clone();
     tokio::spawn(async move {
@@ -333,7 +346,14 @@ fn spawn_submission(client: &GrpcClient, node: &FakeNode, sub: usize, estimate: 
         if !estimate {
             cfg = cfg.with_gas_limit(100_000).with_gas_price(0.002);
         }
-        let what = match client.broadcast_message(msg, cfg).await {
+        let submitted = if blob {
+            let ns = celestia_types::nmt::Namespace::new_v0(&[0xc4, 0x03, sub as u8]).expect("namespace");
+            let b = celestia_types::Blob::new(ns, vec![sub as u8; 100 + sub], None, celestia_types::AppVersion::latest()).expect("blob");
+            client.broadcast_blobs(&[b], cfg).await
+        } else {
+            client.broadcast_message(msg, cfg).await
+        };
+        let what = match submitted {
             Err(e) => json!({"stage": "finished", "result": err_kind(&e)}),
             Ok(submitted) => {
                 let b = submitted.tx_ref().clone();
@@ -401,7 +421,7 @@ async fn execute(cfg: &Config, seed: u64, ch: &mut Chooser, keep: bool) -> Run {
     let mut events = 0u64;
     let mut handles = vec![];
     for sub in 0..k {
-        handles.push(spawn_submission(&client, &node, sub, cfg.estimate[sub], address.clone()));
+        handles.push(spawn_submission(&client, &node, sub, cfg.estimate[sub], cfg.blob.get(sub).copied().unwrap_or(false), address.clone()));
     }
     let mut probe_started = false;
     let mut class = "completed".to_string();
@@ -537,7 +557,7 @@ async fn execute(cfg: &Config, seed: u64, ch: &mut Chooser, keep: bool) -> Run {
         let all_done = (0..k).all(|s| m.finished[s]);
         if all_done && !probe_started {
             probe_started = true;
-            handles.push(spawn_submission(&client, &node, k, false, address.clone()));
+            handles.push(spawn_submission(&client, &node, k, false, false, address.clone()));
             continue;
         }
         if all_done && m.finished[k] {
@@ -670,6 +690,9 @@ async fn execute(cfg: &Config, seed: u64, ch: &mut Chooser, keep: bool) -> Run {
     if !keep && nontrivial {
         EXECS_NONTRIVIAL.fetch_add(1, Ordering::Relaxed);
     }
+    if keep && std::env::var("C43_DEBUG").is_ok() {
+        eprintln!("TRACE (final V={}):\n  {}", m.v, m.trace.join("\n  "));
+    }
     let obs = fnv64(m.trace.join("|").as_bytes());
     Run { taken_obs: obs, class, viol: m.viol, events }
 }
@@ -712,24 +735,32 @@ fn main() {
         }
     } else {
         let q = ctx.quick();
+        let c = |estimate: &[bool], blob: &[bool], wide_menu: bool, bound: usize| Config { estimate: estimate.to_vec(), blob: blob.to_vec(), wide_menu, bound };
+        let (f, t) = (false, true);
         let cfgs: Vec<Config> = if q {
             vec![
-                Config { estimate: vec![false], wide_menu: true, bound: 4 },
-                Config { estimate: vec![true], wide_menu: true, bound: 3 },
-                Config { estimate: vec![false, false], wide_menu: false, bound: 3 },
-                Config { estimate: vec![true, false], wide_menu: false, bound: 2 },
-                Config { estimate: vec![false, false, false], wide_menu: false, bound: 2 },
+                c(&[f], &[f], true, 4),
+                c(&[t], &[f], true, 3),
+                c(&[f], &[t], false, 3),
+                c(&[t], &[t], false, 3),
+                c(&[f, f], &[f, f], false, 3),
+                c(&[t, f], &[f, t], false, 2),
+                c(&[f, f, f], &[f, f, f], false, 2),
+                c(&[f, t, f], &[t, f, f], false, 2),
             ]
         } else {
             vec![
-                Config { estimate: vec![false], wide_menu: true, bound: 5 },
-                Config { estimate: vec![true], wide_menu: true, bound: 4 },
-                Config { estimate: vec![false, false], wide_menu: true, bound: 3 },
-                Config { estimate: vec![false, false], wide_menu: false, bound: 4 },
-                Config { estimate: vec![true, false], wide_menu: false, bound: 3 },
-                Config { estimate: vec![true, true], wide_menu: false, bound: 3 },
-                Config { estimate: vec![false, false, false], wide_menu: false, bound: 3 },
-                Config { estimate: vec![false, true, false], wide_menu: false, bound: 3 },
+                c(&[f], &[f], true, 5),
+                c(&[t], &[f], true, 4),
+                c(&[f], &[t], true, 4),
+                c(&[t], &[t], true, 4),
+                c(&[f, f], &[f, f], true, 3),
+                c(&[f, f], &[f, f], false, 4),
+                c(&[f, f], &[t, f], false, 3),
+                c(&[t, f], &[f, t], false, 3),
+                c(&[t, t], &[f, f], false, 3),
+                c(&[f, f, f], &[f, f, f], false, 3),
+                c(&[f, t, f], &[t, f, f], false, 3),
             ]
         };
         let total_cap = Duration::from_secs(if q { 50 } else { 840 });
@@ -764,7 +795,7 @@ fn main() {
         &ctx,
         rep,
         Spec {
-            rule: "executions of the real GrpcClient (broadcast_message + confirm) over the fake node: 1..3 concurrent submissions from one client (see `configs`: per submission explicit gas or gas estimation; menu width; deviation bound), choice points = which outstanding request to answer next / let the polling timers fire, and the answer: BroadcastTx {ok, sequence mismatch expecting s+1 / s-1 / s+2, TxInMempoolCache, other rejection, (wide: legacy sequence code, gRPC failure)}, re-broadcast {ok, mismatch, cache, rejection}, TxStatus {committed, pending, committed-failed, rejected other code, rejected sequence code, evicted, unknown, (wide: gRPC failure)}, EstimateGasPriceAndUsage {ok, mismatch s+1 / s-1 / s+2, other error}; all executions with at most `bound` non-default choices (default: oldest request, honest success), each followed by one honest probe submission; horizon 60 answered requests.  evaluation = one execution; non-trivial = at least one non-default choice; state = distinct observation trace; transition = one answered request",
+            rule: "executions of the real GrpcClient (broadcast_message / broadcast_blobs + confirm) over the fake node: 1..3 concurrent submissions from one client (see `configs`: per submission message or blob submission, explicit gas or gas estimation; menu width; deviation bound), choice points = which outstanding request to answer next / let the polling timers fire, and the answer: BroadcastTx {ok, sequence mismatch expecting s+1 / s-1 / s+2, TxInMempoolCache, other rejection, (wide: legacy sequence code, gRPC failure)}, re-broadcast {ok, mismatch, cache, rejection}, TxStatus {committed, pending, committed-failed, rejected other code, rejected sequence code, evicted, unknown, (wide: gRPC failure)}, EstimateGasPriceAndUsage {ok, mismatch s+1 / s-1 / s+2, other error}; all executions with at most `bound` non-default choices (default: oldest request, honest success), each followed by one honest probe submission; horizon 60 answered requests.  evaluation = one execution; non-trivial = at least one non-default choice; state = distinct observation trace; transition = one answered request",
             assumptions: &[
                 "the model treats gRPC codes 32 (WrongSequence) and 3 (InvalidSequence) as the sequence-mismatch codes and 'account sequence mismatch, expected N,' as the node's message format (celestia-app / cosmos-sdk)",
                 "roll-back of the believed sequence after a Rejected (non-sequence code) confirmation is taken from the documented behaviour of confirm_tx and is applied when the call completes",
